@@ -1,13 +1,12 @@
 import MiniVecProof.Props.C03World
 import MiniVecProof.Props.C17DedupExact
 /-
-  C10 / C01 / C03 / C12 — VALUES on the register machine (PARTIAL: the 57 operation kinds `astepAll` answers for —
+  C10 / C01 / C03 / C12 — VALUES on the register machine (PARTIAL: the 58 operation kinds `astepAll` answers for —
   constructors incl. `deserialize`, single-vector operations, clone / clone_from / split_off / append, serialize,
   `deserialize_in_place`, leak, all four iterators (`Drain`, `Splice`, `DrainFilter`, `IntoIter`) with every iterator
   step, the provided `nth` / `nth_back` / `count` / `last` (defined from `next` and `drop` the way `core` defines them:
   they return what the list iterator returns and never run out of fuel), `as_slice`, cloning an `IntoIter`; `dedup_by` / `dedup_by_key` (Props/C17DedupExact: exactly `Vec::dedup_by`'s survivors); `dedup` / `remove_item` / `compare` (`==`, `partial_cmp`, `cmp`, equal hashes) with the element type's own `PartialEq`
-  (hypothesis `heq`: the equality script is empty — a misbehaving `PartialEq` is C17's subject); not covered: clone_from on an
-  iterator, with_alignment, the raw and spare-capacity API): a refinement of the
+  (hypothesis `heq`: the equality script is empty — a misbehaving `PartialEq` is C17's subject); not covered: with_alignment, the raw and spare-capacity API): a refinement of the
   world of `Model/World.lean` (what the line-protocol driver runs against the real code) to an abstract world in which
   a register holds a plain list of values, or an iterator described by the values it still has to yield.
 
@@ -2284,7 +2283,35 @@ theorem anext_spec (a a1 a' : AW) (it : String) (ao1 : AOut) (o : AObj) (ys : Li
       | none => rw [hq2] at h; exact absurd rfl h
       | some q => obtain ⟨v, r⟩ := q; exact h3 v r hq2
 
-/-- `astep` plus the provided methods; `clone_from` on an iterator is not covered -/
+def AW.unset (a : AW) (r : String) : AW := fun r' => if r' = r then none else a r'
+
+theorem Rel.unset {X : Ctx} {w : World} {a : AW} (h : Rel X w a) (r : String) : Rel X (w.unset r) (a.unset r) := by
+  refine ⟨fun r' => ?_, fun r' o ao hg ha => ?_⟩
+  · rw [world_get_unset]; unfold AW.unset
+    by_cases hr : r' = r
+    · simp [hr]
+    · simp only [hr, if_false]; exact h.1 r'
+  · rw [world_get_unset] at hg; unfold AW.unset at ha
+    by_cases hr : r' = r
+    · simp [hr] at hg
+    · simp only [hr, if_false] at hg ha; exact h.2 r' o ao hg ha
+
+/-- the provided `Clone::clone_from` on an `IntoIter` (`*self = source.clone()`), mirrored on values: the clone is made
+    into a temporary register, the old value dropped, the new one stored -/
+def acloneFromIter (a : AW) (it src : String) : Option (AW × AOut) :=
+  if it == src then some (a, .badOp) else
+  match a it, a src with
+  | some (.intoIter _), some (.intoIter _) =>
+    (match astep a (.clone_iter src tmpReg) with
+     | some (a1, .ok) =>
+       (match astep a1 (.drop it) with
+        | some (a2, o2) => some ((match a2 tmpReg with | some o => a2.set it o | none => a2).unset tmpReg, o2)
+        | none => none)
+     | some (a1, o) => some (a1.unset tmpReg, o)
+     | none => none)
+  | _, _ => some (a, .badOp)
+
+/-- `astep` plus the provided methods -/
 def astepAll (a : AW) : Op → Option (AW × AOut)
   | .nth it k => if k > 64 then some (a, .badOp) else anthLoop (.next it) k a
   | .nth_back it k =>
@@ -2294,7 +2321,7 @@ def astepAll (a : AW) : Op → Option (AW × AOut)
       | _ => anthLoop (.next_back it) k a)
   | .count it => aconsume a it (fun ys => .len ys.length)
   | .last it => aconsume a it (fun ys => optA ys.getLast?)
-  | .clone_from_iter .. => none
+  | .clone_from_iter it src => acloneFromIter a it src
   | op => astep a op
 
 section stepsAll
@@ -2537,6 +2564,95 @@ theorem consume_val (w : World) (a a' : AW) (it : String) (ao : AOut) (f : List 
             simp only
             exact hloop (o.meas + 2) a2 o ys hai hrem (by omega) hd
 
+/-- `clone_from` between two `IntoIter`s, with the values -/
+theorem cloneFromIter_val (w : World) (a a' : AW) (it src : String) (ao : AOut) (hrel : Rel X w a)
+    (hs : acloneFromIter a it src = some (a', ao)) : StepVal X (cloneFromIter X w it src) a a' ao := by
+  unfold acloneFromIter at hs
+  unfold cloneFromIter
+  by_cases hrr : (it == src) = true
+  · simp only [hrr, if_true, Option.some.injEq, Prod.mk.injEq] at hs ⊢; obtain ⟨rfl, rfl⟩ := hs
+    exact .inl ⟨trivial, hrel⟩
+  · simp only [hrr, Bool.false_eq_true, if_false] at hs ⊢
+    by_cases hboth : ∃ x y, a it = some (.intoIter x) ∧ a src = some (.intoIter y)
+    · obtain ⟨x, y, hai, has⟩ := hboth
+      obtain ⟨v1, i1, hg1, _⟩ := hrel.into_of it x hai
+      obtain ⟨v2, i2, hg2, _⟩ := hrel.into_of src y has
+      rw [hai, has] at hs
+      simp only [hg1, hg2] at hs ⊢
+      cases hc : astep a (.clone_iter src tmpReg) with
+      | none => rw [hc] at hs; simp at hs
+      | some q =>
+        obtain ⟨a1, o1⟩ := q
+        rw [hc] at hs
+        have h1 := C10_world_step_values X hq hz heq w a a1 (.clone_iter src tmpReg) o1 hrel hc
+        cases hres1 : step X w (.clone_iter src tmpReg) with
+        | mk w1 out1 =>
+          rw [hres1] at h1
+          rcases h1 with ⟨ho1, hrel1⟩ | ⟨p, hp, hb, a'', hrel''⟩
+          · simp only at ho1 hrel1
+            -- the clone was made (or the step answered badOp): follow the specification's own case split
+            cases o1 with
+            | ok =>
+              cases out1 <;> simp only [OutVal] at ho1
+              simp only at hs ⊢
+              cases hd : astep a1 (.drop it) with
+              | none => rw [hd] at hs; simp at hs
+              | some q2 =>
+                obtain ⟨a2, o2⟩ := q2
+                rw [hd] at hs
+                simp only [Option.some.injEq, Prod.mk.injEq] at hs; obtain ⟨rfl, rfl⟩ := hs
+                have h2 := C10_world_step_values X hq hz heq w1 a1 a2 (.drop it) o2 hrel1 hd
+                cases hres2 : step X w1 (.drop it) with
+                | mk w2 out2 =>
+                  rw [hres2] at h2
+                  simp only
+                  have key : ∀ b : AW, Rel X w2 b →
+                      Rel X ((match w2.get tmpReg with | some o => w2.set it o | none => w2).unset tmpReg)
+                        ((match b tmpReg with | some o => b.set it o | none => b).unset tmpReg) := by
+                    intro b hb
+                    cases hgt : w2.get tmpReg with
+                    | none =>
+                      have : b tmpReg = none := (hb.1 tmpReg).mp hgt
+                      simp only [this]; exact hb.unset tmpReg
+                    | some o =>
+                      cases hbt : b tmpReg with
+                      | none => have := (hb.1 tmpReg).mpr hbt; rw [hgt] at this; cases this
+                      | some bo => simp only; exact (hb.set it o bo (hb.2 tmpReg o bo hgt hbt)).unset tmpReg
+                  rcases h2 with ⟨ho2, hrel2⟩ | ⟨p, hp, hb, a'', hrel''⟩
+                  · exact .inl ⟨ho2, key a2 hrel2⟩
+                  · simp only at hp hrel''
+                    subst hp
+                    exact .inr ⟨p, rfl, hb, _, key a'' hrel''⟩
+            | _ =>
+              simp only [Option.some.injEq, Prod.mk.injEq] at hs; obtain ⟨rfl, rfl⟩ := hs
+              cases out1 <;> simp only [OutVal] at ho1 <;> exact .inl ⟨ho1, hrel1.unset tmpReg⟩
+          · simp only at hp hrel''
+            subst hp
+            exact .inr ⟨p, rfl, hb, _, hrel''.unset tmpReg⟩
+    · have hbad : a = a' ∧ AOut.badOp = ao := by
+        revert hs
+        split
+        · rename_i x y h1 h2; exact absurd ⟨x, y, h1, h2⟩ hboth
+        · intro hs; simpa using hs
+      obtain ⟨rfl, rfl⟩ := hbad
+      split
+      · rename_i v1 i1 v2 i2 h1 h2
+        exfalso
+        obtain ⟨ao1, hao1⟩ : ∃ x, a it = some x := by
+          cases h : a it with
+          | none => have := (hrel.1 it).mpr h; rw [h1] at this; cases this
+          | some x => exact ⟨x, rfl⟩
+        obtain ⟨ao2, hao2⟩ : ∃ x, a src = some x := by
+          cases h : a src with
+          | none => have := (hrel.1 src).mpr h; rw [h2] at this; cases this
+          | some x => exact ⟨x, rfl⟩
+        have hv1 := hrel.2 it _ _ h1 hao1
+        have hv2 := hrel.2 src _ _ h2 hao2
+        cases ao1 <;> simp only [RegVal] at hv1
+        cases ao2 <;> simp only [RegVal] at hv2
+        exact hboth ⟨_, _, hao1, hao2⟩
+      · exact .inl ⟨trivial, hrel⟩
+
 /-- **one step of what the driver runs (`stepAll`), with the values** -/
 theorem C10_world_stepAll_values (w : World) (a a' : AW) (op : Op) (ao : AOut) (hrel : Rel X w a)
     (hs : astepAll a op = some (a', ao)) : StepVal X (stepAll X w op) a a' ao := by
@@ -2592,7 +2708,10 @@ theorem C10_world_stepAll_values (w : World) (a a' : AW) (op : Op) (ao : AOut) (
       (fun fuel a2 o ys hai hrem hm hd => by
         have := lastLoop_val X hq hz heq it fuel none w a a2 o ys hrel hai hrem hm hd
         cases hgl : ys.getLast? <;> simpa [hgl] using this) hs
-  case clone_from_iter it src => simp [astepAll] at hs
+  case clone_from_iter it src =>
+    simp only [astepAll] at hs
+    simp only [stepAll]
+    exact cloneFromIter_val X hq hz heq w a a' it src ao hrel hs
   all_goals exact C10_world_step_values X hq hz heq w a a' _ ao hrel hs
 
 end stepsAll
@@ -2732,6 +2851,12 @@ example : (runA [.macro_list "a" [1, 1, 2, 2, 1, 3, 3], .dedup "a", .serialize "
 example : (runA [.macro_list "a" [1, 2, 3], .with_capacity "b" 9, .push "b" 1, .push "b" 2, .compare "a" "b", .push "b" 3,
     .compare "a" "b", .push "b" 0, .compare "b" "a", .compare "a" "x"] (fun _ => none)).map (·.2) =
     some [.ok, .ok, .ok, .ok, .cmp false .gt, .ok, .cmp true .eq, .ok, .cmp false .gt, .badOp] := by
+  decide +kernel
+
+/-- `clone_from` between two partly consumed `IntoIter`s -/
+example : (runA [.macro_list "a" [1, 2, 3], .macro_list "b" [7, 8, 9, 10], .into_iter "a" "i", .into_iter "b" "j", .next "i", .next_back "j",
+    .clone_from_iter "i" "j", .as_slice "i", .next "j", .as_slice "j", .as_slice "i", .clone_from_iter "i" "i"] (fun _ => none)).map (·.2) =
+    some [.ok, .ok, .ok, .ok, .some 1, .some 10, .ok, .vals [7, 8, 9], .some 7, .vals [8, 9], .vals [7, 8, 9], .badOp] := by
   decide +kernel
 
 end MV.Props
